@@ -114,6 +114,53 @@ def e1(cx):
 
 
 # ---------------------------------------------------------------- E2
+# combinators that stop calling their closure once it returns this kind of value
+_SHORT = {'try_for_each': 'break', 'try_fold': 'break', 'all': 'false', 'any': 'true', 'find': 'true', 'position': 'true', 'find_map': 'some',
+          'take_while': 'false', 'map_while': 'none', 'skip_while': 'false'}
+
+
+def _ret_kind(e):
+    e = strip(e)
+    if e[0] == 'agg':
+        if e[2].endswith(('ControlFlow::Break', 'Result::Err', 'Option::None')):
+            return 'break' if not e[2].endswith('Option::None') else 'none'
+        if e[2].endswith('Option::Some'):
+            return 'some'
+        if e[2].endswith(('ControlFlow::Continue', 'Result::Ok')):
+            return 'continue'
+    b = const_bool(e)
+    if b is not None:
+        return 'true' if b else 'false'
+    return None
+
+
+def _asks_again(g, start, targets):
+    """is one of `targets` reachable from `start`? A closure running under a short-circuiting combinator (try_for_each, all, any,
+    find, take_while…) is not re-entered once it returned the value that stops the combinator (tracked per path)"""
+    seen = set()
+    work = [(start, None)]
+    while work:
+        nid, last = work.pop()
+        if (nid, last) in seen:
+            continue
+        seen.add((nid, last))
+        n = g.nodes[nid]
+        if nid in targets:
+            return True
+        if n['kind'] == 'assign' and n['lhs'][0] == 'local' and isinstance(n['lhs'][1], tuple) and n['lhs'][1][1] == 0:
+            last = _ret_kind(n['rhs']) or 'other'
+        if n['kind'] == 'exit' and n.get('name') == '<closure>':
+            stop = _SHORT.get((n.get('via') or '').rsplit('::', 1)[-1])
+            if stop is not None and last is not None and (last == stop or (stop == 'break' and last in ('break', 'none'))):
+                continue      # the combinator ends here: nothing is pulled any more
+            last = None
+        for m, k, l in g.succs(nid):
+            if k == 'u':
+                continue
+            work.append((m, last))
+    return False
+
+
 def producer_roots(cx):
     """(fn, kind) for every producer: repeating task fns, and actual_subscribe / poll / poll_next
     bodies with a cycle that contains a downstream next"""
@@ -197,6 +244,27 @@ def e2(cx):
         for n in g.nodes:
             if n['kind'] == 'switch' and mentions(n['discr'], lambda x: x in derived or (x[0] == 'local' and x[1] in dlocals)):
                 used = True
+        # once the observer answered "finished" a looping producer leaves its loop: from the finished branch the question is never
+        # asked again (a `return` inside a for_each closure only skips one item — the iterator is still pulled to its end)
+        spins = None
+        if kind == 'loop':
+            for n in g.nodes:
+                if n['kind'] != 'switch':
+                    continue
+                d0 = strip(n['discr'])
+                neg = False
+                while d0[0] == 'un' and d0[1] == 'Not':
+                    d0 = strip(d0[2])
+                    neg = not neg
+                if d0 not in [strip(x) for x in derived]:
+                    continue
+                for m_, k_, l_ in g.succs(n['id']):
+                    dd_, v_ = sw_value(l_)
+                    if v_ not in (0, 1):
+                        continue
+                    if (v_ == 1) != neg:      # the branch on which is_finished() answered true
+                        if _asks_again(g, m_, {fnode['id'] for fnode in fin_nodes}):
+                            spins = n
         if hit:
             n = g.nodes[hit[0]]
             res.append(Finding(ID, 'E2', label, False,
@@ -204,6 +272,10 @@ def e2(cx):
                                g.loc(n), [node_desc(g, n)]))
         elif not used:
             res.append(Finding(ID, 'E2', label, False, 'is_finished is called but its result does not guard the emission', fn['span']))
+        elif spins is not None:
+            res.append(Finding(ID, 'E2', label, False,
+                               'after is_finished() answered true the producer stays in its loop (the question is asked again for the next item): the items are no longer delivered but the source is still pulled to its end — an unbounded iterator never returns from subscribe',
+                               g.loc(spins), [node_desc(g, spins)]))
         else:
             res.append(Finding(ID, 'E2', label, True, 'is_finished consulted before every next (%s)' % kind, fn['span']))
     if not cx.control and len(roots) < roles.FLOORS['C16.E2.producers']:
